@@ -36,10 +36,34 @@ Definition sx_outcome (q : req) (r : result (list (str * val))) : sx :=
                                           | None => [] end) (out_names q))]
   end.
 
-(* the files below the run folder (temporary files excluded) and whether they are complete, sorted by path *)
-Definition listing (s0 : fs) : sx :=
+(* external shape of the mapped output o *)
+Definition ext_shape_of (q : req) (o : str) : list nat :=
+  match mk_ctx q, producer (q_funcs q) o with
+  | Ok cx, Some f => match shape_of cx f with Ok sm => ext_of (snd sm) (fst sm) | Err _ => [] end
+  | _, _ => []
+  end.
+
+(* the keys of a persisted dict: external positions that hold an element *)
+Definition dict_keys (q : req) (s0 : fs) (p : path) : sx :=
+  match dict_get (files s0) p with
+  | Some (Complete (PDict cells)) =>
+      let o := flat_map (fun name => if str_eqb (p_dict name) p then [name] else []) (out_names q) in
+      match o with
+      | name :: _ =>
+          let ext := ext_shape_of q name in
+          SL (flat_map (fun ic => match snd ic with
+                                  | Some _ => [SL (map SN (unravel ext (fst ic)))]
+                                  | None => [] end) (combine (seq 0 (length cells)) cells))
+      | [] => SL []
+      end
+  | _ => SL []
+  end.
+
+(* the files below the run folder (temporary files excluded), whether they are complete, and for a persisted dict its
+   keys; sorted by path *)
+Definition listing (q : req) (s0 : fs) : sx :=
   let fl := filter (fun pc => negb (is_tmp (fst pc))) (files s0) in
-  SL (map (fun p => SL [SS p; SN (if is_complete s0 p then 1 else 0)]) (sort_str (map fst fl))).
+  SL (map (fun p => SL [SS p; SN (if is_complete s0 p then 1 else 0); dict_keys q s0 p]) (sort_str (map fst fl))).
 
 Definition call_lines (evs : list event) : list str :=
   flat_map (fun e => match e with Call l => [l] | _ => [] end) evs.
@@ -81,14 +105,14 @@ Definition run (c : case) : sx :=
       match k2 with
       | None =>
           let r := run_on sym_body v st q false s1 in
-          SL [listing s1; sx_outcome q (o_result r);
+          SL [listing q s1; sx_outcome q (o_result r);
               Run_C06.sx_calls (call_lines e1); Run_C06.sx_calls (call_lines (o_events r))]
       | Some k =>
           let r2 := run_on sym_body v st q false s1 in
           let e2 := firstn k (o_events r2) in
           let s2 := apply_evs s1 e2 in
           let r := run_on sym_body v st q false s2 in
-          SL [listing s2; sx_outcome q (o_result r);
+          SL [listing q s2; sx_outcome q (o_result r);
               Run_C06.sx_calls (call_lines e1 ++ call_lines e2); Run_C06.sx_calls (call_lines (o_events r))]
       end
   end.
@@ -102,7 +126,16 @@ Definition expected_outcome (q : req) (o : oracle) : sx :=
 Definition listed_complete (lst : sx) (p : path) : bool :=
   match lst with
   | SL l => existsb (fun x => match x with
-                              | SL [SS p'; SI z] => str_eqb p p' && (z =? 1)%Z
+                              | SL [SS p'; SI z; _] => str_eqb p p' && (z =? 1)%Z
+                              | _ => false end) l
+  | _ => false
+  end.
+(* the complete dict file p lists the key `pos` *)
+Definition listed_key (lst : sx) (p : path) (pos : list nat) : bool :=
+  match lst with
+  | SL l => existsb (fun x => match x with
+                              | SL [SS p'; SI z; SL keys] =>
+                                  str_eqb p p' && (z =? 1)%Z && existsb (fun k => sx_eqb k (SL (map SN pos))) keys
                               | _ => false end) l
   | _ => false
   end.
@@ -110,15 +143,18 @@ Definition listed_complete (lst : sx) (p : path) : bool :=
 (* the call lines of the elements that were completely stored when the final resume started *)
 Definition stored_calls (q : req) (o : oracle) (st : storage) (lst : sx) : list str :=
   flat_map (fun f =>
-              let lines := match dict_get (o_calls o) (fname f) with Some l => map snd l | None => [] end in
+              let pl := match dict_get (o_calls o) (fname f) with Some l => l | None => [] end in
+              let lines := map snd pl in
               if is_mapped f then
                 match st with
                 | FileSt =>
                     flat_map (fun il => if forallb (fun out => listed_complete lst (p_elem out (fst il))) (fouts f)
                                         then [snd il] else [])
                              (combine (seq 0 (length lines)) lines)
-                | DictSt =>
-                    if forallb (fun out => listed_complete lst (p_dict out)) (fouts f) then lines else []
+                | _ =>
+                    (* an element is stored when every output's persisted dict has its key *)
+                    flat_map (fun el => if forallb (fun out => listed_key lst (p_dict out) (fst el)) (fouts f)
+                                        then [snd el] else []) pl
                 end
               else if forallb (fun out => listed_complete lst (p_single out)) (fouts f) then lines else [])
            (q_funcs q).
